@@ -1,7 +1,7 @@
 (** C01 — search returns exactly the documents the query matches.  Property theorems over Model/SearchCore.v
     (model of index/eval.go, matchtree.go, indexdata.go, matchiter.go, hititer.go at /repo HEAD incl. the word fast-path
     fix commits 260937d d7a2c44 cae2348). *)
-From ZV Require Import Lib.Base Model.SearchCore Proofs.SearchCoreText Proofs.SearchCoreTree Proofs.SearchCoreLoop
+From ZV Require Import Lib.Base Model.SearchCore Model.SearchCoreIters Proofs.SearchCoreIters Proofs.SearchCoreText Proofs.SearchCoreTree Proofs.SearchCoreLoop
   Proofs.SearchCoreSelect Proofs.SearchCoreBuild Proofs.SearchCoreSimp Proofs.SearchCoreWord Proofs.SearchCoreTop Proofs.SearchCoreRf Proofs.SearchCoreDistill Proofs.SearchCoreEngine.
 From Coq Require Import ZifyBool ZifyN.
 
@@ -157,18 +157,77 @@ Theorem C01_search_exact_engine_partial :
 Proof. exact search_exact_engine. Qed.
 Print Assumptions C01_search_exact_engine_partial.
 
+(** 13. The operational distanceHitIterator (findNext / first / next over two sorted posting lists, any skip sequence)
+    denotes the filtered list dist_hits used by the model, and the consuming loop of ngramDocIterator.candidates takes
+    exactly the hits before the end of the file. *)
+Theorem C01_distance_iter_spec : forall (d : nat) (l1 l2 : list nat), inc l1 -> inc l2 ->
+  let st := dmake d l1 l2 in
+  (inc (fst st) /\ inc (snd st) /\ norm d st /\ dist_hits d (fst st) (snd st) = dist_hits d l1 l2) /\
+  (forall st', norm d st' -> dfirst st' = hfirst (dist_hits d (fst st') (snd st'))) /\
+  (forall limit st', inc (fst st') -> inc (snd st') ->
+     let st'' := dnext d limit st' in
+     inc (fst st'') /\ inc (snd st'') /\ norm d st'' /\
+     dist_hits d (fst st'') (snd st'') = hnext limit (dist_hits d (fst st') (snd st'))).
+Proof.
+  intros d l1 l2 H1 H2 st. split; [apply dmake_spec; auto|]. split; [apply dfirst_spec | apply dnext_spec].
+Qed.
+Print Assumptions C01_distance_iter_spec.
+
+Theorem C01_candidates_loop_spec : forall (d fuel fend : nat) (st : list nat * list nat),
+  inc (fst st) -> inc (snd st) -> norm d st -> length (dist_hits d (fst st) (snd st)) < fuel ->
+  let D := dist_hits d (fst st) (snd st) in
+  let '(taken, st') := cand_loop fuel d fend st in
+  taken = take_while (fun p => p <? fend) D /\ inc (fst st') /\ inc (snd st') /\ norm d st' /\
+  dist_hits d (fst st') (snd st') = drop_while (fun p => p <? fend) D.
+Proof. intros d fuel fend st. exact (cand_loop_spec d fuel fend st). Qed.
+Print Assumptions C01_candidates_loop_spec.
+
 (** the frequency function used by the correspondence runner satisfies the frequency hypothesis *)
 Lemma count_freq_sound : forall orbit c fn cs g, count_freq orbit c fn cs g = 0%N -> post orbit (ix_tris c fn) cs g = [].
 Proof.
   intros orbit c fn cs g H. unfold count_freq in H. unfold ix_tris.
   destruct (post orbit (all_tris (texts c fn)) cs g); [reflexivity|]. simpl in H. lia.
 Qed.
+Lemma varlen_pos : forall x, 0 < varlen x.
+Proof. intro x. unfold varlen. generalize 10 as f. intros f. destruct f; simpl; [lia|]. destruct (x <? 128); lia. Qed.
+Lemma blob_size_zero : forall l last, blob_size last l = 0 -> l = [].
+Proof. destruct l as [|p r]; intros last H; [reflexivity|]. simpl in H. pose proof (varlen_pos (p - last)). lia. Qed.
+Lemma tri_eqb_eq : forall a b, tri_eqb a b = true <-> a = b.
+Proof.
+  intros [[a1 a2] a3] [[b1 b2] b3]. unfold tri_eqb. rewrite !andb_true_iff, !N.eqb_eq. split; [intros [[-> ->] ->]; reflexivity | intro H; inversion H; auto].
+Qed.
+Lemma variants_In : forall orbit g v, In v (variants orbit g) <->
+  let '(g1, g2, g3) := g in let '(v1, v2, v3) := v in In v1 (orbit g1) /\ In v2 (orbit g2) /\ In v3 (orbit g3).
+Proof.
+  intros orbit [[g1 g2] g3] [[v1 v2] v3]. unfold variants. rewrite in_flat_map. split.
+  - intros [x [Hx H]]. apply in_flat_map in H. destruct H as [y [Hy H]]. apply in_map_iff in H. destruct H as [z [E Hz]]. inversion E; subst. auto.
+  - intros [H1 [H2 H3]]. exists v1. split; [auto|]. apply in_flat_map. exists v2. split; [auto|]. apply in_map_iff. exists v3. auto.
+Qed.
+Lemma real_freq_sound : forall orbit c fn cs g, real_freq orbit c fn cs g = 0%N -> post orbit (ix_tris c fn) cs g = [].
+Proof.
+  intros orbit c fn cs g H. unfold real_freq in H. unfold ix_tris. destruct cs.
+  - apply (blob_size_zero _ 0). lia.
+  - assert (Hall : forall v, In v (variants orbit g) -> post orbit (all_tris (texts c fn)) true v = []).
+    { assert (Hs : fold_right (fun v a => blob_size 0 (post orbit (all_tris (texts c fn)) true v) + a) 0 (variants orbit g) = 0) by lia.
+      clear H. induction (variants orbit g) as [|v l IH]; intros v' Hv'; [destruct Hv'|]. simpl in Hs.
+      destruct Hv' as [<-|Hv']; [apply (blob_size_zero _ 0); lia | apply IH; [lia | auto]]. }
+    destruct (post orbit (all_tris (texts c fn)) false g) as [|p l] eqn:E; [reflexivity|]. exfalso.
+    assert (Hp : In p (post orbit (all_tris (texts c fn)) false g)) by (rewrite E; left; reflexivity).
+    apply post_In in Hp. destruct Hp as [t' [Hin Hm]].
+    assert (Hv : In t' (variants orbit g)).
+    { apply variants_In. destruct g as [[g1 g2] g3]. destruct t' as [[t1 t2] t3]. simpl in Hm.
+      rewrite !andb_true_iff in Hm. destruct Hm as [[M1 M2] M3]. apply memN_In in M1, M2, M3. auto. }
+    assert (Hp' : In p (post orbit (all_tris (texts c fn)) true t')).
+    { apply post_In. exists t'. split; [exact Hin|]. simpl. apply tri_eqb_eq. reflexivity. }
+    rewrite (Hall t' Hv) in Hp'. destruct Hp'.
+Qed.
+(** the top-level theorem as instantiated by the correspondence runner (real frequencies = posting list byte sizes) *)
 Theorem C01_search_exact_runner_partial :
   forall (re_match : N -> list N -> bool) (tolower : N -> N) (orbit : N -> list N) (c : corpus) (q : Q),
   agree tolower orbit ->
-  re_okb re_match tolower orbit c (count_freq orbit c) (expand (simp c q)) = true ->
-  search re_match tolower orbit c (count_freq orbit c) q = spec_search re_match tolower c q.
-Proof. intros. apply search_exact_checked; auto. intros. apply count_freq_sound. assumption. Qed.
+  re_okb re_match tolower orbit c (real_freq orbit c) (expand (simp c q)) = true ->
+  search re_match tolower orbit c (real_freq orbit c) q = spec_search re_match tolower c q.
+Proof. intros. apply search_exact_checked; auto. intros. apply real_freq_sound. assumption. Qed.
 Print Assumptions C01_search_exact_runner_partial.
 
 (* ------------------------------------------------------------------ non-vacuity *)
@@ -229,3 +288,7 @@ Proof.
 Qed.
 Example alower_nl : forall x, alower x = alower 10%N -> x = 10%N.
 Proof. intros x H. unfold alower in H. destruct ((65 <=? x) && (x <=? 90))%N eqn:E; simpl in H; lia. Qed.
+(** distance iterator: posting lists of two trigrams at distance 2; hits 3 and 10; candidates before position 8 *)
+Example ex_dist : let st := dmake 2 [1; 3; 6; 10] [4; 5; 9; 12] in
+  dfirst st = Some 3 /\ dfirst (dnext 2 3 st) = Some 10 /\ fst (cand_loop 5 2 8 st) = [3].
+Proof. vm_compute. auto. Qed.
